@@ -134,7 +134,7 @@ CHECKS = {
         "library. The crate's to_proto must produce that message (cells in any dependencies-first order, validated by TLC), "
         "from_proto(to_proto(lib)) must equal lib, and the specification's message must survive proto->raw->proto. "
         "Layers.tla models the layer registry behind 'layer/purpose numbers' as a state machine (Add with purposes, get_or_insert, "
-        "keynum/keyname/nextnum; invariants KeysValid, LatestWins, GoiIdempotent); every sequence of 3-4 operations is replayed "
+        "keynum/keyname/nextnum; invariants KeysValid, LatestWins, GoiIdempotent); every sequence of 3 operations is replayed "
         "into raw::Layers with all answers compared after every operation.",
    note="Trusted: TLC, raw and proto constructor/projection glue. Abstract port shapes / blockages compare as sets by layer "
         "(their order is C20's subject). Proto->raw uses the layer table that gives purpose numbers their meaning.",
